@@ -511,3 +511,77 @@ func verifHarnessC12HandleSeesInstall() {
 	assert("no-request", client.requests == 0)
 	reach("end")
 }
+
+// C13/C12: two lookups of different unknown names overlap — the second runs while the first one's cache write is in
+// progress (if the store's lock lets it; otherwise right after). Whatever the order, the cache ends up holding every
+// secret the store knows.
+func verifHarnessC13ConcurrentLookups() {
+	verifEnvReset()
+	client := &verifLockClient{}
+	cache := &verifCache{}
+	s := verifSymStore(param("names"), &client.verifClient, cache)
+	client.s = s
+	s.client = client
+	s.allowLookup = true
+	assume(verifStoreInv(s))
+	name1, name2 := nondetString("name1"), nondetString("name2")
+	assume(and(name1 != "", name2 != "", name1 != name2, not(mapHas(s.active.m, name1)), not(mapHas(s.active.m, name2))))
+	client.svc[name1] = &api.SecretValue{Value: nondetSeq("svc.val1"), Version: api.SecretVersion(nondetU32("svc.ver1"))}
+	client.svc[name2] = &api.SecretValue{Value: nondetSeq("svc.val2"), Version: api.SecretVersion(nondetU32("svc.ver2"))}
+	ctx := &verifCtx{tag: "caller", hasDeadline: true, deadlineNS: 1 << 50}
+	var h2 Secret
+	var err2 error
+	cache.duringWrite = func() { h2, err2 = s.LookupSecret(ctx, name2) }
+
+	h1, err1 := s.LookupSecret(ctx, name1)
+	joinConcurrent()
+
+	assert("both-lookups-succeed", and(err1 == nil, err2 == nil, h1 != nil, h2 != nil))
+	assert("both-installed", and(mapHas(s.active.m, name1), mapHas(s.active.m, name2)))
+	assert("lock-released", notHeld(&s.active.Mutex))
+	var got map[string]*cachedSecret
+	assert("cache-doc-decodes", jsonBlobAs(cache.content, &got))
+	assert("cache-holds-every-known-secret-after-overlapping-lookups", verifSameCached(got, s.active.m))
+	reach("end")
+}
+
+// C12/C16: two lookups of the SAME unknown name race: the other caller's lookup runs to completion after this caller
+// found the name unknown and before its own flight starts (so the service is asked twice). Every handle for the name
+// must follow later installs.
+func verifHarnessC12RacingLookups() {
+	verifEnvReset()
+	client := &verifLockClient{}
+	s := verifSymStore(param("names"), &client.verifClient, nil)
+	client.s = s
+	s.client = client
+	s.allowLookup = true
+	assume(verifStoreInv(s))
+	name := nondetString("name")
+	assume(and(name != "", not(mapHas(s.active.m, name))))
+	client.svc[name] = &api.SecretValue{Value: nondetSeq("svc.val"), Version: api.SecretVersion(nondetU32("svc.ver"))}
+	ctx := &verifCtx{tag: "caller", hasDeadline: true, deadlineNS: 1 << 50}
+	var hB Secret
+	var errB error
+	raced := false
+	if symbolic() {
+		verifSF.beforeLead = func() {
+			raced = true
+			hB, errB = s.LookupSecret(ctx, name)
+		}
+	}
+	hA, errA := s.LookupSecret(ctx, name)
+	if !raced {
+		hB, errB = s.LookupSecret(ctx, name) // natively: the second lookup simply follows
+	}
+	assert("both-lookups-succeed", and(errA == nil, errB == nil, hA != nil, hB != nil))
+	assert("inv", verifStoreInv(s))
+	// a poll installs a new version: every handle handed out for the name serves it
+	nv := &api.SecretValue{Value: nondetSeq("new.val"), Version: api.SecretVersion(nondetU32("new.ver"))}
+	want := append([]byte(nil), nv.Value...)
+	s.applyUpdates(map[string]*api.SecretValue{name: nv})
+	assert("first-callers-handle-follows-the-install", bytesEq(hA.Get(), want))
+	assert("second-callers-handle-follows-the-install", bytesEq(hB.Get(), want))
+	h3 := s.Secret(name)
+	assert("a-later-handle-follows-the-install", bytesEq(h3.Get(), want))
+	reach("end")
+}
